@@ -79,12 +79,13 @@ func hostpath(prefix string) (host string, path string) {
 		return prefix, ""
 	}
 
+	// host names are case-insensitive: all commands use the lower-cased host
 	p := strings.SplitN(prefix, "/", 2)
-	host, path = p[0], ""
+	host, path = strings.ToLower(p[0]), ""
 	if len(p) == 1 {
-		return p[0], "/"
+		return host, "/"
 	}
-	return p[0], "/" + p[1]
+	return host, "/" + p[1]
 }
 
 func NewTable(b *bytes.Buffer) (t Table, err error) {
